@@ -444,6 +444,7 @@ MORE3 = {'C01': " Round 5: inputs named like a temporary/backup companion of the
 PROPS['C01']['nofile'] = 900
 PROPS['C18']['nofile'] = 400
 PROPS['C02']['nofile'] = 300
+PROPS['C20']['nofile'] = 1500   # 1002 inputs held open at once in the many-members refusal cases
 MORE4 = {'C01': " Round 6: after the per-member checks a SESSION of up to 12 calls in tape-chosen order on one archive object - extraction, extraction onto a directory (refused), an index beyond the count, streams read whole, streams kept open while other calls run and continued later, over-long reads, extraction by name, lookups of absent names - each step judged on its own; sweep of all 1728 three-call sessions over {extract, extract onto a directory, stream, held stream} x 3 members followed by a pass over every member; the backslash and ' ; & $ as ordinary name characters.", 'C02': ' Round 6: the same session alphabet on reference-encoded archives (LZH and unsupported-kind members included; extraction of the latter may be refused) and the 1728 three-call sessions on a plain/LZH/plain volume.', 'C03': ' Round 6: the session alphabet on the reopened CLM (extracted WAVs judged by the strict parser) and the 1728 three-call sessions on three tracks.', 'C04': ' Round 6: in a quarter of the runs the decoder object is replaced in mid-stream (after 0..6 drain calls) by a copy or a moved-to object of itself, the original destroyed; compiled only while HuffLZ is copy/move constructible.', 'C06': ' Round 6: at every fifth edit the map is copied (copy-assigned, copy-constructed, or copied and the original destroyed); the edits continue on the copy - first at the cell touched last - and every original still alive must hold, and serialise to, what it held when it was copied.', 'C08': ' Round 6: files carrying 1..8 surplus or 1..4 missing pixel bytes, counted in the size field and present in the stream (sweep over every depth/width/height of the dims grid, one generated file in ten): refused, or accepted and lawful.', 'C09': ' Round 6: between two saves of a partial-palette picture another picture of the same height with a full different colour table, and one of another height, go through the writer - the bytes must not change; one picture case in four is preceded by another picture (same or other height) going through every step.', 'C10': ' Round 6: after every refused write the lawful structure is written again (twice) and must give the bytes it gave before; after every refused read the intact file makes the whole round trip; one valid case in four is preceded by another structure going through reader and writer.', 'C11': ' Round 6: PRT image records combining a degenerate size (0..2 in width/height) with a palette index at/after the palette count and a scan line of 0 or the rounded width (sweep and one PRT case in four); the C10 cross-field predicate is no longer asserted on accepted objects here - only the safety of every follow-up.', 'C12': " Round 6: one history in four continues from its middle on a copy of the reader (copy-constructed MemoryReader / FileSliceReader, original optionally destroyed), the copy's start read from the copy itself.", 'C15': ' Round 6: capacity runs with 1..40 refused calls (out-of-range symbols) spread over the run: exactly 65535-n updates must still be accepted.', 'C16': " Round 6: one object holding maps of different heights one after the other (assigned by move from a fresh read and by copy), first queried in the block queried last before; copies whose original's mapping entry is changed, or whose original is destroyed, before the copy's first query.", 'C17': ' Round 6: pool names sharing a prefix and then differing in a byte between the letter cases against a letter (map_1.txt, mapa.txt, MAPB.TXT, map^2.txt, map`.txt).'}
 for _pid, _t in MORE.items():
     PROPS[_pid]['rule'] += " Also generated (second session): " + _t + MORE3.get(_pid, '') + MORE4.get(_pid, '')
